@@ -100,7 +100,10 @@ func faultOpts(prop string, thorough bool) (GenOpts, faultEmphasis) {
 		em.Kinds = []stopKind{stopInvalidEvent}
 		em.MaxFaults = 2
 		em.GateAccepted = true
-		o.LongIdle = true
+		o.LongIdle = 500
+		if thorough {
+			o.LongIdle = 150
+		}
 	}
 	if thorough {
 		o.MaxUnits = 7
